@@ -120,7 +120,7 @@ class LifeRun:
         # therefore not a declared route: the prefix is still registered once per connection. Every second run tries one.
         LifeRun.runs += 1
         if dup is None:
-            dup = ((LifeRun.runs // 2) % nroutes + 1) if (front == 'v2' and nroutes >= 1 and LifeRun.runs % 2 == 0) else 0
+            dup = ((LifeRun.runs // 2) % nroutes + 1) if (nroutes >= 1 and LifeRun.runs % 2 == 0) else 0
         self.dup = dup          # route index declared a second time (0: none); kept in replay objects
         # every third of those runs declares the route, detaches its handler and declares it again (accepted: the prefix is
         # free again) - still one declared route, registered once per connection
@@ -131,7 +131,11 @@ class LifeRun:
             self.app.detach_handler(self.base + '/' + ROUTE % -dup)
             self.app.route(self.base + '/' + ROUTE % -dup)(lambda name, app_param, reply, context: None)
             dup = 0
-        if dup:
+        if dup and front == 'legacy':
+            # the legacy front-end attaches the handlers of declared routes when it connects: the second declaration is
+            # refused then (the first handler stays) - the other declared routes and after_start are not its business
+            self.app.route('/' + ROUTE % dup)(lambda name, param, app_param: self.problems.append('the refused handler was called'))
+        elif dup:
             try:
                 self.app.route(self.base + '/' + ROUTE % dup)(lambda name, app_param, reply, context: None)
                 self.problems.append('a second route() for an occupied prefix was accepted')
